@@ -1100,70 +1100,78 @@ class C22(Check):
         if os.environ.get("VERIF_C22_NO_FUZZ") == "1":
             stats.extra["fuzz"] = "skipped (VERIF_C22_NO_FUZZ=1)"
             return
+        from concurrent.futures import ThreadPoolExecutor
         bindir = self.build_fuzz()
-        runs = self.fuzz_runs_quick if tier == "quick" else self.fuzz_runs_thorough
+        runs = int(os.environ.get("VERIF_C22_FUZZ_RUNS") or (self.fuzz_runs_quick if tier == "quick" else self.fuzz_runs_thorough))
         scratch = os.path.join(os.environ.get("VERIF_SCRATCH", "/dev/shm"), f"verif-fz-{os.getpid()}")
         shutil.rmtree(scratch, ignore_errors=True)
         os.makedirs(scratch)
         known = [e for e in core.load_known(self.prop) if e.get("status") == "known"]
         known_sub = [e["panic_contains"] for e in known if e.get("panic_contains")]
         camps = self.fuzz_campaigns()
-        procs = []
-        try:
-            for name, (target, seeds) in camps.items():
-                cdir = os.path.join(scratch, name, "corpus")
-                adir = os.path.join(scratch, name, "artifacts")
-                os.makedirs(cdir)
-                os.makedirs(adir)
-                for i, b in enumerate(seeds):
-                    tools.write(os.path.join(cdir, f"seed{i:02d}"), b)
-                env = dict(os.environ)
-                env.update({"VERIF_FUZZ_AUX": self.seed_dir, "VERIF_FUZZ_SCRATCH": os.path.join(scratch, name),
-                            "VERIF_KNOWN_PANICS": "\n".join(known_sub), "RUST_BACKTRACE": "0"})
-                cmd = [os.path.join(bindir, target), f"-runs={runs}", f"-seed={seed}", "-len_control=0", "-timeout=60",
-                       "-rss_limit_mb=4096", "-max_len=16384", f"-artifact_prefix={adir}/", "-print_final_stats=1", cdir]
-                procs.append((name, target, adir, subprocess.Popen(cmd, cwd=os.path.join(scratch, name), env=env,
-                                                                   stdout=subprocess.DEVNULL, stderr=subprocess.PIPE, text=True)))
-            first_violation = None
-            total_execs = 0
-            for name, target, adir, p in procs:
+        self._seeds()
+
+        def campaign(item):
+            """Runs one campaign to its run budget, restarting (same corpus, next seed) after every crash that is a
+            known finding. Returns a dict of results."""
+            name, (target, seeds) = item
+            base = os.path.join(scratch, name)
+            cdir, adir = os.path.join(base, "corpus"), os.path.join(base, "artifacts")
+            os.makedirs(cdir)
+            os.makedirs(adir)
+            for i, b in enumerate(seeds):
+                tools.write(os.path.join(cdir, f"seed{i:02d}"), b)
+            env = dict(os.environ)
+            env.update({"VERIF_FUZZ_AUX": self.seed_dir, "VERIF_FUZZ_SCRATCH": base,
+                        "VERIF_KNOWN_PANICS": "\n".join(known_sub), "RUST_BACKTRACE": "0"})
+            out = {"name": name, "execs": 0, "cov": 0, "known": {}, "violation": None, "inconclusive": None,
+                   "not_reproduced": 0, "restarts": 0}
+            remaining, attempt = runs, 0
+            while remaining > 0 and attempt < 8:
+                for f in os.listdir(adir):
+                    os.unlink(os.path.join(adir, f))
+                cmd = [os.path.join(bindir, target), f"-runs={remaining}", f"-seed={seed + attempt}", "-len_control=0",
+                       "-timeout=60", "-rss_limit_mb=4096", "-max_len=16384", f"-artifact_prefix={adir}/",
+                       "-print_final_stats=1", cdir]
+                attempt += 1
                 try:
-                    _, err = p.communicate(timeout=3600 if tier == "quick" else 8 * 3600)
+                    p = subprocess.run(cmd, cwd=base, env=env, stdout=subprocess.DEVNULL, stderr=subprocess.PIPE, text=True,
+                                       timeout=3600 if tier == "quick" else 10 * 3600)
                 except subprocess.TimeoutExpired:
-                    p.kill()
-                    p.communicate()
-                    stats.inconclusive.append(f"libFuzzer campaign {name} exceeded its wall budget")
-                    continue
-                m = re.search(r"stat::number_of_executed_units:\s*(\d+)", err)
+                    out["inconclusive"] = f"libFuzzer campaign {name} exceeded its wall budget"
+                    break
+                m = re.search(r"stat::number_of_executed_units:\s*(\d+)", p.stderr)
                 execs = int(m.group(1)) if m else 0
-                total_execs += execs
-                cov = re.findall(r"cov: (\d+)", err)
-                stats.extra[f"fuzz_{name}_execs"] = execs
-                stats.extra[f"fuzz_{name}_cov"] = int(cov[-1]) if cov else 0
-                stats.classes[f"fuzz:{name}"] += execs
+                out["execs"] += execs
+                remaining -= max(execs, 1)
+                cov = re.findall(r"cov: (\d+)", p.stderr)
+                out["cov"] = max(out["cov"], int(cov[-1]) if cov else 0)
                 if p.returncode == 0:
-                    continue
+                    break
                 arts = sorted(os.listdir(adir))
-                where = re.search(r"VERIF-PANIC target=\S+ at=(.*)", err)
-                stats.extra[f"fuzz_{name}_crash"] = (where.group(1)[:200] if where else err.strip()[-300:])
+                where = re.search(r"VERIF-PANIC target=\S+ at=(.*)", p.stderr)
                 if not arts:
-                    stats.inconclusive.append(f"libFuzzer campaign {name} exited {p.returncode} without an artifact: {err[-400:]}")
-                    continue
+                    out["inconclusive"] = f"libFuzzer campaign {name} exited {p.returncode} without an artifact: {p.stderr[-400:]}"
+                    break
                 data = open(os.path.join(adir, arts[0]), "rb").read()
-                rep = self.replay_artifact(target, data, scratch)
+                rep = self.replay_artifact(target, data, base)
                 if rep is None:
                     continue
                 res, hang, argv, d = rep
                 detail = {"campaign": name, "artifact_len": len(data), "artifact_sha1": hashlib.sha1(data).hexdigest(),
-                          "argv": argv, "in_process": where.group(1)[:200] if where else None,
+                          "argv": argv, "in_process": where.group(1)[:200] if where else p.stderr.strip()[-200:],
                           "artifact_hex_head": data[:64].hex()}
                 try:
                     self.judge(res, hang, f"libFuzzer artifact of campaign {name}", detail, d, argv)
-                    stats.extra["fuzz_crashes_not_reproduced_by_binary"] = stats.extra.get(
-                        "fuzz_crashes_not_reproduced_by_binary", 0) + 1
+                    out["not_reproduced"] += 1
+                    out["restarts"] += 1
+                except Inconclusive as e:
+                    out["inconclusive"] = str(e)[:400]
+                    break
                 except Violation as v:
-                    if any(e["signature"] == v.signature or core.sig_matches(e["signature"], v.signature) for e in known):
-                        stats.excluded_known[v.signature] += 1
+                    if any(core.sig_matches(e["signature"], v.signature) for e in known):
+                        out["known"][v.signature] = out["known"].get(v.signature, 0) + 1
+                        out["restarts"] += 1
                         continue
                     keep = os.path.join(core.FAIL_DIR, self.prop)
                     os.makedirs(keep, exist_ok=True)
@@ -1171,17 +1179,37 @@ class C22(Check):
                     tools.write(apath, data)
                     v.detail = dict(v.detail or {}, artifact=apath)
                     v.case = {"family": "fuzz-artifact", "campaign": name, "artifact": apath}
-                    if first_violation is None:
-                        first_violation = v
-            stats.extra["fuzz_total_execs"] = total_execs
-            stats.evaluations += total_execs
-            if first_violation is not None:
-                raise first_violation
+                    out["violation"] = v
+                    break
+            return out
+
+        try:
+            with ThreadPoolExecutor(max_workers=min(len(camps), max(2, core.NWORKERS))) as ex:
+                results = list(ex.map(campaign, camps.items()))
         finally:
-            for _, _, _, p in procs:
-                if p.poll() is None:
-                    p.kill()
             shutil.rmtree(scratch, ignore_errors=True)
+        total = 0
+        first = None
+        for r in results:
+            total += r["execs"]
+            stats.extra[f"fuzz_{r['name']}_execs"] = r["execs"]
+            stats.extra[f"fuzz_{r['name']}_cov"] = r["cov"]
+            stats.classes[f"fuzz:{r['name']}"] += r["execs"]
+            if r["restarts"]:
+                stats.extra[f"fuzz_{r['name']}_restarts_after_known_crash"] = r["restarts"]
+            if r["not_reproduced"]:
+                stats.extra["fuzz_crashes_not_reproduced_by_binary"] = stats.extra.get(
+                    "fuzz_crashes_not_reproduced_by_binary", 0) + r["not_reproduced"]
+            for sg, n in r["known"].items():
+                stats.excluded_known[sg] += n
+            if r["inconclusive"]:
+                stats.inconclusive.append(r["inconclusive"])
+            if r["violation"] is not None and first is None:
+                first = r["violation"]
+        stats.extra["fuzz_total_execs"] = total
+        stats.evaluations += total
+        if first is not None:
+            raise first
 
 
 CHECK = C22()
